@@ -12,6 +12,10 @@
 (*  interface I { x:String }   type A implements I { x:String p:String }   *)
 (*  type B implements I { x:String q:String }   union U = A | B            *)
 (*  enum E { RED GREEN }  input In { k:Int=5 m:String r:Int! }             *)
+(*  input In2 { n:In l:[Int] e:E }   scalar Cu                             *)
+(*  Q.g(i fl st bo id e cu li lni lli le in lin in2                        *)
+(*      dflt=7 din={k:5,r:1} de=GREEN):Int                                 *)
+(*  Q.gni(ni:Int!) gne(ne:E!) gnli(nli:[Int]!) gnin(nin:In!) : Int          *)
 (*  type M { a:Int b:Int c:Int o:O }                                       *)
 (***************************************************************************)
 EXTENDS GQLBase
@@ -34,7 +38,25 @@ S1 ==
                  F("i", N("I")), F("u", N("U")), F("il", TList(N("I"))), F("e", N("E")),
                  [name |-> "f", type |-> N("Int"),
                   args |-> << ArgD("x", N("Int"), IntV("7")), Arg("y", N("Int")),
-                              Arg("z", TList(N("Int"))), Arg("in", N("In")), Arg("en", N("E")) >>] >>],
+                              Arg("z", TList(N("Int"))), Arg("in", N("In")), Arg("en", N("E")) >>],
+                 \* g: one argument of every input type shape (C05)
+                 [name |-> "g", type |-> N("Int"),
+                  args |-> << Arg("i", N("Int")), Arg("fl", N("Float")),
+                              Arg("st", N("String")), Arg("bo", N("Boolean")), Arg("id", N("ID")),
+                              Arg("e", N("E")), Arg("cu", N("Cu")),
+                              Arg("li", TList(N("Int"))), Arg("lni", TList(TNN(N("Int")))),
+                              Arg("lli", TList(TList(N("Int")))),
+                              Arg("le", TList(N("E"))),
+                              Arg("in", N("In")), Arg("lin", TList(N("In"))),
+                              Arg("in2", N("In2")),
+                              ArgD("dflt", N("Int"), IntV("7")),
+                              ArgD("din", N("In"), ObjV(<<[n |-> "k", v |-> IntV("5")], [n |-> "r", v |-> IntV("1")]>>)),
+                              ArgD("de", N("E"), [k |-> "eint", v |-> "green#1"]) >>],
+                 \* required arguments, one per field
+                 [name |-> "gni", type |-> N("Int"), args |-> << Arg("ni", TNN(N("Int"))) >>],
+                 [name |-> "gne", type |-> N("Int"), args |-> << Arg("ne", TNN(N("E"))) >>],
+                 [name |-> "gnli", type |-> N("Int"), args |-> << Arg("nli", TNN(TList(N("Int")))) >>],
+                 [name |-> "gnin", type |-> N("Int"), args |-> << Arg("nin", TNN(N("In"))) >>] >>],
      O |-> [Ty("OBJECT") EXCEPT !.fields =
               << F("x", N("String")), F("y", N("String")), F("z", N("O")), F("w", TNN(N("Int"))) >>],
      I |-> [Ty("INTERFACE") EXCEPT !.fields = << F("x", N("String")) >>, !.defrt = "A"],
@@ -48,6 +70,9 @@ S1 ==
                  [name |-> "GREEN", internal |-> "green#1", deprecated |-> FALSE] >>],
      In |-> [Ty("INPUT_OBJECT") EXCEPT !.inputs =
               << ArgD("k", N("Int"), IntV("5")), Arg("m", N("String")), Arg("r", TNN(N("Int"))) >>],
+     In2 |-> [Ty("INPUT_OBJECT") EXCEPT !.inputs =
+              << Arg("n", N("In")), Arg("l", TList(N("Int"))), Arg("e", N("E")) >>],
+     Cu |-> Ty("SCALAR"),
      M |-> [Ty("OBJECT") EXCEPT !.fields =
               << F("a", N("Int")), F("b", N("Int")), F("c", N("Int")), F("o", N("O")) >>],
      Int |-> Ty("SCALAR"), Float |-> Ty("SCALAR"), String |-> Ty("SCALAR"),
